@@ -139,28 +139,39 @@ def processOutput {α σ} (mul : α → σ → α) (res : Option (Nat × Nat)) (
 
 /-! ## structure of the code as the translator reports it (compared in Bridge/C14) -/
 
-/-- statements of the `for data in data_loader` body of `reconstruct_volumes` that touch the assembly
-state, in source order -/
+/-- semantic facts of the `for data in data_loader` body of `reconstruct_volumes` (helpers inlined, locals
+resolved, spellings canonicalised — harness/translate/recipes/c14_loop.py): initial state; what the
+`last_filename` tests do for the first batch / a batch of the same file / of another file; the roles
+FILENAME, ITER (`_do_iteration`), SCALE, RES, OUT (what is written); allocation; window written; counter;
+yield; and the order of these parts -/
 def expectedLoopStages : List String :=
   ["init[curr_volume=None;last_filename=None;slice_counter=0]",
-   "filename=_get_filename_from_batch(data)",
-   "if last_filename is None[last_filename=filename]",
-   "if last_filename != filename[curr_volume=None;last_filename=filename;slice_counter=0]",
-   "scaling_factors=data['scaling_factor'].clone()",
-   "forward=self._do_iteration(data)",
-   "output=iteration_output.output_image",
-   "output_abs=_process_output(output, scaling_factors)",
-   "if curr_volume is None[curr_volume=torch.zeros(volume_size,*output_abs.shape[1:]);volume_size=len(data_loader.batch_sampler.sampler.volume_indices[filename])]",
-   "write curr_volume[lo:hi]=output_abs",
-   "slice_counter+=",
-   "if yield_cond[yield curr_volume,filename]"]
+   "guard first batch: resets[] then last_filename is the batch's filename",
+   "guard same file: resets[] then last_filename is the batch's filename",
+   "guard other file: resets[curr_target=None;curr_volume=None;slice_counter=0] then last_filename is the batch's filename",
+   "FILENAME=_get_filename_from_batch(data)",
+   "ITER=self._do_iteration(data, loss_fns=loss_fns, regularizer_fns=regularizer_fns)",
+   "SCALE=data['scaling_factor'].clone()",
+   "RES=_compute_resolution(key=crop, reconstruction_size=data.get('reconstruction_size', None))",
+   "OUT=_process_output(ITER.output_image, SCALE, resolution=RES, complex_axis=self._complex_dim)",
+   "alloc volume_size=len(data_loader.batch_sampler.sampler.volume_indices[FILENAME])",
+   "alloc curr_volume=torch.zeros(volume_size, *OUT.shape[1:], dtype=OUT.dtype)",
+   "write curr_volume[slice_counter:slice_counter + OUT.shape[0]]=OUT.cpu()",
+   "slice_counter:=slice_counter + OUT.shape[0]",
+   "if slice_counter == volume_size[yield curr_volume,…,FILENAME]",
+   "order guard < alloc < write < counter < yield"]
 
-/-- `_process_output`: scale along the batch axis, modulus, channel axis, crop -/
+/-- `_process_output` as a decision tree over (scaling factors given?, rank 3 / 4?, resolution given?): scale
+along the batch axis, modulus, channel axis, crop -/
 def expectedProcessStages : List String :=
-  ["if scaling_factors is not None[data=data*scaling_factors.view(-1,ones)]",
-   "data=T.modulus_if_complex(data)",
-   "if len(data.shape) in [3, 4][data=data.unsqueeze(1)]",
-   "if resolution is not None[data=T.center_crop(data, resolution)]"]
+  ["when scaling_factors is None and T.modulus_if_complex(data, complex_axis=complex_axis).ndim in (3, 4) and resolution is None: return T.modulus_if_complex(data, complex_axis=complex_axis).unsqueeze(1)",
+   "when scaling_factors is None and T.modulus_if_complex(data, complex_axis=complex_axis).ndim in (3, 4) and resolution is not None: return T.center_crop(T.modulus_if_complex(data, complex_axis=complex_axis).unsqueeze(1), resolution).contiguous()",
+   "when scaling_factors is None and T.modulus_if_complex(data, complex_axis=complex_axis).ndim not in (3, 4) and resolution is None: return T.modulus_if_complex(data, complex_axis=complex_axis)",
+   "when scaling_factors is None and T.modulus_if_complex(data, complex_axis=complex_axis).ndim not in (3, 4) and resolution is not None: return T.center_crop(T.modulus_if_complex(data, complex_axis=complex_axis), resolution).contiguous()",
+   "when scaling_factors is not None and T.modulus_if_complex(data * scaling_factors.view(-1, *(1,) * (data.ndim - 1)).to(data.device), complex_axis=complex_axis).ndim in (3, 4) and resolution is None: return T.modulus_if_complex(data * scaling_factors.view(-1, *(1,) * (data.ndim - 1)).to(data.device), complex_axis=complex_axis).unsqueeze(1)",
+   "when scaling_factors is not None and T.modulus_if_complex(data * scaling_factors.view(-1, *(1,) * (data.ndim - 1)).to(data.device), complex_axis=complex_axis).ndim in (3, 4) and resolution is not None: return T.center_crop(T.modulus_if_complex(data * scaling_factors.view(-1, *(1,) * (data.ndim - 1)).to(data.device), complex_axis=complex_axis).unsqueeze(1), resolution).contiguous()",
+   "when scaling_factors is not None and T.modulus_if_complex(data * scaling_factors.view(-1, *(1,) * (data.ndim - 1)).to(data.device), complex_axis=complex_axis).ndim not in (3, 4) and resolution is None: return T.modulus_if_complex(data * scaling_factors.view(-1, *(1,) * (data.ndim - 1)).to(data.device), complex_axis=complex_axis)",
+   "when scaling_factors is not None and T.modulus_if_complex(data * scaling_factors.view(-1, *(1,) * (data.ndim - 1)).to(data.device), complex_axis=complex_axis).ndim not in (3, 4) and resolution is not None: return T.center_crop(T.modulus_if_complex(data * scaling_factors.view(-1, *(1,) * (data.ndim - 1)).to(data.device), complex_axis=complex_axis), resolution).contiguous()"]
 
 /-! ## `Engine.predict` = sequential sampler → batch volume sampler → loader → `reconstruct_volumes` -/
 
@@ -292,51 +303,45 @@ def writeOutput {γ δ} (base : Nat → Nat) (chan0 : δ → γ) (key : String) 
     (output : List (δ × Nat)) : Dir γ :=
   output.foldl (fun d o => writeFile d (base o.2) key (chan0 o.1)) d
 
-/-- what the translator must report about `write_output_to_h5` -/
+/-- what the translator must report about `write_output_to_h5` (temporaries and private helpers resolved):
+per tuple the file `output_directory / basename` is opened in mode "w" and channel 0 (float32) is stored
+under `output_key` -/
 def expectedWriterFacts : List String :=
-  ["if create_dirs_if_needed",
-   "  output_directory.mkdir(exist_ok=True, parents=True)",
-   "for (idx, (volume, _, filename)) in enumerate(output)",
-   "  if isinstance(filename, pathlib.PosixPath)",
-   "    filename=filename.name",
+  ["before the loop, if create_dirs_if_needed: output_directory.mkdir(exist_ok=True, parents=True)",
+   "for (volume, _, filename) in output",
+   "  if isinstance(filename, pathlib.PosixPath): filename=filename.name",
    "  reconstruction=volume.numpy()[:, 0, ...].astype(np.float32)",
-   "  if volume_processing_func",
-   "    reconstruction=volume_processing_func(reconstruction)",
-   "  with h5py.File(output_directory / filename, 'w') as f",
+   "  if volume_processing_func: reconstruction=volume_processing_func(reconstruction)",
+   "  with h5py.File(output_directory / filename, 'w')",
    "    f.create_dataset(output_key, data=reconstruction)",
    "default output_key='reconstruction'",
    "default create_dirs_if_needed=True",
    "default volume_processing_func=None"]
 
-/-- … about `Engine.predict`, `build_loader`, `build_batch_sampler`, `_compute_resolution` -/
+/-- … about `Engine.predict` (its return value with temporaries resolved), `build_loader`,
+`build_batch_sampler` and `_compute_resolution` (decision trees: if/elif/else == early returns) -/
 def expectedPredictFacts : List String :=
-  ["batch_sampler=self.build_batch_sampler(dataset, batch_size=batch_size, sampler_type='sequential', limit_number_of_volumes=None)",
-   "data_loader=self.build_loader(dataset, batch_sampler=batch_sampler, num_workers=num_workers)",
-   "output=list(self.reconstruct_volumes(data_loader, add_target=False, crop=crop))",
-   "return output"]
+  ["return list(self.reconstruct_volumes(self.build_loader(dataset, batch_sampler=self.build_batch_sampler(dataset, batch_size=batch_size, sampler_type='sequential', limit_number_of_volumes=None), num_workers=num_workers), add_target=False, crop=crop))"]
 
 def expectedLoaderFacts : List String :=
-  ["batch_sampler=batch_sampler", "batch_size=1", "dataset=dataset", "drop_last=False", "num_workers=num_workers",
-   "pin_memory=False", "sampler=None", "shuffle=False"]
+  ["batch_sampler=batch_sampler",
+   "batch_size=1",
+   "dataset=dataset",
+   "drop_last=False",
+   "num_workers=num_workers",
+   "pin_memory=False",
+   "sampler=None",
+   "shuffle=False"]
 
 def expectedSamplerDispatch : List String :=
-  ["if sampler_type == 'random'",
-   "  if not isinstance(dataset, List) or any((not isinstance(_, Dataset) for _ in dataset))[raise ValueError]",
-   "  batch_sampler=ConcatDatasetBatchSampler(datasets=dataset, batch_size=batch_size)",
-   "elif sampler_type == 'sequential'",
-   "  sampler=direct.data.samplers.DistributedSequentialSampler(dataset, **kwargs)",
-   "  batch_sampler=direct.data.samplers.BatchVolumeSampler(sampler, batch_size=batch_size)",
-   "else[raise ValueError]",
-   "return batch_sampler"]
+  ["when sampler_type != 'random' and sampler_type != 'sequential': raise ValueError",
+   "when sampler_type != 'random' and sampler_type == 'sequential': return direct.data.samplers.BatchVolumeSampler(direct.data.samplers.DistributedSequentialSampler(dataset, **kwargs), batch_size=batch_size)",
+   "when sampler_type == 'random' and (not (not isinstance(dataset, List) or any((not isinstance(_, Dataset) for _ in dataset)))): return ConcatDatasetBatchSampler(datasets=dataset, batch_size=batch_size)",
+   "when sampler_type == 'random' and (not isinstance(dataset, List) or any((not isinstance(_, Dataset) for _ in dataset))): raise ValueError"]
 
 def expectedResolutionFacts : List String :=
-  ["if key == 'header'",
-   "  resolution=[_.detach().cpu().numpy().tolist() for _ in reconstruction_size]",
-   "  resolution=[_[0] for _ in resolution][:-1]",
-   "  return resolution",
-   "elif not key",
-   "  return None",
-   "else[raise ValueError]",
-   "call resolution=_compute_resolution(key=crop, reconstruction_size=data.get('reconstruction_size', None))"]
+  ["when key != 'header' and key: raise ValueError",
+   "when key != 'header' and not key: return None",
+   "when key == 'header': return [_[0] for _ in [_.detach().cpu().numpy().tolist() for _ in reconstruction_size]][:-1]"]
 
 end DirectVerif.Recon
